@@ -420,7 +420,7 @@ Proof.
   exists sd. split; [eapply sym_of_StandsFor; eassumption|].
   set (root := (s_id sd, Some (w_drv w))) in *.
   set (E := edges l (w_id w)) in *.
-  set (R := reach (S (length E)) E [root]) in *.
+  set (R := reach (fuel_for E) E [root]) in *.
   apply andb_true_iff in H. destruct H as [HE HR].
   rewrite forallb_forall in HE. rewrite forallb_forall in HR.
   assert (Hsound : Forall (connected l (w_id w) root) R).
